@@ -70,7 +70,7 @@ def catalogue(im, r, bs):
 
 def ask(exe, img, mode, queries, timeout=600, env=None):
     res = core.run_tool([exe, img, mode], stdin=("\n".join(queries) + "\n").encode("latin1"), timeout=timeout, binary="libsquashfs-reader", env=env)
-    lines = [l for l in res.out.decode("latin1").split("\n") if l and not l.startswith("DONE") and not l.startswith("DISAGREE")]
+    lines = [l for l in res.out.decode("latin1").split("\n") if l and not l.startswith("DONE") and not l.startswith("DISAGREE") and not l.startswith("STREAM-AFTER-ERROR")]
     return res, lines
 
 
@@ -120,6 +120,16 @@ def run_image(arg):
                     v = r.choice(c05.mutation_values(orig, size, r))
                     data = sqfsimg.patch(data, off, size, v)
                     muts.append("%s=%#x" % (fname, v))
+                if idx % 5 == 1:
+                    # a fragment table entry whose block cannot be loaded: location beyond the image or an impossible size word
+                    fr = [(n, o, sz) for n, o, sz in fmap.fields if n.startswith("frag[")]
+                    if fr:
+                        n, o, sz = r.choice(fr)
+                        if r.random() < 0.5:
+                            data = sqfsimg.patch(data, o, 8, len(img) + r.choice([0, 1, 4096, 1 << 40]))
+                        else:
+                            data = sqfsimg.patch(data, o + 8, 4, r.choice([0x00FFFFFF, 0x01FFFFFF, 1, (1 << 24) | 1]))
+                        muts.append("%s damaged" % n)
                 if idx % 7 == 3:
                     # two inodes referencing the same data location with different size words
                     f = {n: (o, s) for n, o, s in fmap.fields}
@@ -175,6 +185,10 @@ def run_image(arg):
                     continue
                 if ans and ans[0].startswith("OPENFAIL"):
                     oc.inc("open_failed")
+                    break
+                if b"STREAM-AFTER-ERROR" in res.out:
+                    l = [x for x in res.out.decode("latin1").split("\n") if x.startswith("STREAM-AFTER-ERROR")][0]
+                    oc.violate("stream:data-after-error", "a file stream that reported an error handed out data on the next call: %s" % l, {"image.sqfs": data[:1 << 20], "history.txt": "\n".join(hist)})
                     break
                 if len(ans) != len(hist):
                     oc.inconclusive.append("history answered %d of %d" % (len(ans), len(hist)))
